@@ -218,3 +218,24 @@ k("model_iter_map_collect_left_to_right_stops_at_first_err", ["C07", "C04", "C12
   "std: iter().map(f).collect::<Result<Arc<[_]>, _>>() calls f left to right, once per element, and stops at the first Err "
   "(the contract assumed for Interpreter::exec and recreate_instructions)", bound="3 elements, every Ok/Err pattern",
   functions=["std::iter::Iterator::map + collect"])
+
+# ---- composite instructions through the REAL Instruction::exec (thorough tier: 3-7 min of goto processing each) ----------
+k("c07_binop_exec_subtract_through_dispatch", ["C07", "C08"], "complete",
+  "BinOperation::exec on constant children through the real Instruction::exec and the 37-arm operator match: a - b",
+  tier="thorough", domain=ALLI, inputs=I2, probe="arith:-", functions=["BinOperation::exec", "Instruction::exec", "subtract::exec"],
+  twins=["binop.exec.dispatch_subtract"])
+k("c07_binop_exec_and_short_circuit", ["C07"], "complete", "false && (1 / 0) is false: the right operand is not evaluated (real exec path)",
+  tier="thorough", domain="one tree, no symbolic input", probe="order", functions=["BinOperation::exec", "and::exec"],
+  twins=["binop.exec.and_short_circuit"])
+k("c07_binop_exec_and_true_evaluates_rhs", ["C07"], "complete", "true && (1 / 0) fails with ZeroDivision: the right operand IS evaluated",
+  tier="thorough", domain="one tree, no symbolic input", probe="order", functions=["BinOperation::exec", "and::exec"],
+  twins=["binop.exec.and_rhs_once"])
+k("c07_binop_exec_lhs_before_rhs", ["C07"], "complete", "(1 / 0) + (1 << 64) fails with ZeroDivision: the left operand is evaluated first",
+  tier="thorough", domain="one tree, no symbolic input", probe="order", functions=["BinOperation::exec"],
+  twins=["binop.exec.lhs_first_error_stops"])
+k("c12_if_else_exec_selects_branch", ["C12", "C07"], "complete", "IfElse::exec yields the first branch iff the condition is true (real exec path)",
+  tier="thorough", domain="all c in bool, x, y in i64", inputs=("bool", "i64", "i64"), probe="control",
+  functions=["IfElse::exec", "Instruction::exec"], twins=["ifelse.exec.true_runs_first_branch_only", "ifelse.exec.false_runs_second_branch_only"])
+k("c12_if_else_exec_untaken_branch_not_evaluated", ["C12", "C07"], "complete",
+  "with two failing branches the error is the one of the selected branch: the other branch is not evaluated",
+  tier="thorough", domain="all c in bool", inputs=("bool",), probe="control", functions=["IfElse::exec"])
